@@ -5,8 +5,8 @@
    mixer  F_i = T/4 -+ M1/(4l) -+ M2/(4l) -+ M3/(4Cm).  The spec works in "motor force
    units": t = T/4, a = M1/(4l), b = M2/(4l), c = M3/(4Cm) are INTEGERS, so every
    quantity below is an exact integer (or an explicit fraction <<num, den>>).
-   geometry: l = ln/16, Cm = cn/16 with cn | ln, FM even  ==>  the yaw-moment clamp
-   |M3| <= 2 l FM  reads |c| <= ln*FM/(2 cn)  (an integer).
+   geometry: l = ln/16, Cm = cn/16 with cn | ln, Fx even  ==>  the yaw-moment clamp
+   |M3| <= 2 l Fx  reads |c| <= ln*Fx/(2 cn)  (an integer).
 
    Alloc  = property-level oracle (what C13 states, nothing more).
    Impl   = implementation-shaped transcription of derive_control_allocation (as repaired
@@ -17,26 +17,26 @@ EXTENDS IntLin, TLC
 CONSTANTS FMs,      \* set of F_max values (even integers)
           Geos,     \* set of <<ln, cn>> : l = ln/16, Cm = cn/16
           K,        \* moment demand range  -K..K  (units of motor force)
-          TPad      \* thrust demand range  -TPad .. FM + TPad
+          TPad      \* thrust demand range  -TPad .. Fx + TPad
 VARIABLE tv
 
 MixSigns == << <<-1, -1, -1>>, <<1, 1, -1>>, <<1, -1, 1>>, <<-1, 1, 1>> >>
 FMoment(m) == [i \in 1..4 |-> Dot(MixSigns[i], m)]          \* motor force for the moment only
 
-MSat(FM, geo, m) ==     \* range limit of the demand, exactly as the property says "range-limited"
-    LET lim12 == FM \div 2                               \* |M12| <= l*4FM/2  <=> |a| <= FM/2
-        lim3  == (geo[1] * FM) \div (2 * geo[2])         \* |M3|  <= l*4FM/2  <=> |c| <= ln FM/(2 cn)
+MSat(Fx, geo, m) ==     \* range limit of the demand, exactly as the property says "range-limited"
+    LET lim12 == Fx \div 2                               \* |M12| <= l*4FM/2  <=> |a| <= Fx/2
+        lim3  == (geo[1] * Fx) \div (2 * geo[2])         \* |M3|  <= l*4FM/2  <=> |c| <= ln Fx/(2 cn)
     IN << Clamp(m[1], -lim12, lim12), Clamp(m[2], -lim12, lim12), Clamp(m[3], -lim3, lim3) >>
-TSat(FM, t) == Clamp(t, 0, FM)
+TSat(Fx, t) == Clamp(t, 0, Fx)
 
 (* ---------------- property-level oracle ---------------- *)
 Spread(f) == MaxSeq(f) - MinSeq(f)
-Oracle(FM, geo, t, m) ==
-    LET ms  == MSat(FM, geo, m)
+Oracle(Fx, geo, t, m) ==
+    LET ms  == MSat(Fx, geo, m)
         fm  == FMoment(ms)
-        ts  == TSat(FM, t)
-    IN IF Spread(fm) <= FM
-       THEN LET cc == Clamp(ts, -MinSeq(fm), FM - MaxSeq(fm))       \* least shift of the collective
+        ts  == TSat(Fx, t)
+    IN IF Spread(fm) <= Fx
+       THEN LET cc == Clamp(ts, -MinSeq(fm), Fx - MaxSeq(fm))       \* least shift of the collective
             IN [kind |-> "exact", F |-> [i \in 1..4 |-> fm[i] + cc], shift |-> cc - ts,
                 msat |-> ms, fm |-> fm, ts |-> ts]
        ELSE [kind |-> "bounds", F |-> <<0, 0, 0, 0>>, shift |-> 0, msat |-> ms, fm |-> fm, ts |-> ts]
@@ -46,52 +46,52 @@ Realised(F) == [T4 |-> SumSeq(F),
                 m4 |-> << -F[1] + F[2] + F[3] - F[4], -F[1] + F[2] - F[3] + F[4], -F[1] - F[2] + F[3] + F[4] >>]
 
 (* ---------------- implementation-shaped model (fractions <<num, den>>, den > 0) ------- *)
-Impl(FM, geo, t, m) ==
-    LET ms   == MSat(FM, geo, m)
+Impl(Fx, geo, t, m) ==
+    LET ms   == MSat(Fx, geo, m)
         fm   == FMoment(ms)
-        ts   == TSat(FM, t)
+        ts   == TSat(Fx, t)
         fsum == [i \in 1..4 |-> fm[i] + ts]
-        C1   == FM - MaxSeq(fsum)
+        C1   == Fx - MaxSeq(fsum)
         C2   == MinSeq(fsum)
         \* thrust part, times 2 (F_max/2 appears)
         th2  == IF C1 >= 0 THEN (IF C2 >= 0 THEN 2 * ts ELSE 2 * (ts - C2))
-                ELSE (IF C2 >= 0 THEN 2 * (ts + C1) ELSE FM)
+                ELSE (IF C2 >= 0 THEN 2 * (ts + C1) ELSE Fx)
         big  == MaxSeq([i \in 1..4 |-> Abs(fm[i])])
         resc == C1 < 0 /\ C2 < 0 /\ big > 0
-        \* F_i = th2/2 + (resc ? FM*fm_i/(2 big) : fm_i)  as fraction over den
+        \* F_i = th2/2 + (resc ? Fx*fm_i/(2 big) : fm_i)  as fraction over den
         den  == IF resc THEN 2 * big ELSE 2
-        num  == [i \in 1..4 |-> IF resc THEN th2 * big + FM * fm[i] ELSE th2 + 2 * fm[i]]
-    IN [den |-> den, num |-> [i \in 1..4 |-> Clamp(num[i], 0, FM * den)],
+        num  == [i \in 1..4 |-> IF resc THEN th2 * big + Fx * fm[i] ELSE th2 + 2 * fm[i]]
+    IN [den |-> den, num |-> [i \in 1..4 |-> Clamp(num[i], 0, Fx * den)],
         cell |-> <<Sgn(C1), Sgn(C2)>>]
 
-ImplRefinesOracle(FM, geo, t, m) ==
-    LET o == Oracle(FM, geo, t, m)
-        p == Impl(FM, geo, t, m)
-    IN /\ \A i \in 1..4 : p.num[i] >= 0 /\ p.num[i] <= FM * p.den
+ImplRefinesOracle(Fx, geo, t, m) ==
+    LET o == Oracle(Fx, geo, t, m)
+        p == Impl(Fx, geo, t, m)
+    IN /\ \A i \in 1..4 : p.num[i] >= 0 /\ p.num[i] <= Fx * p.den
        /\ o.kind = "exact" => \A i \in 1..4 : p.num[i] = o.F[i] * p.den
 
 (* the oracle itself realises the demanded moment, and the demanded thrust iff shift = 0 *)
-OracleSound(FM, geo, t, m) ==
-    LET o == Oracle(FM, geo, t, m) IN
+OracleSound(Fx, geo, t, m) ==
+    LET o == Oracle(Fx, geo, t, m) IN
     o.kind = "exact" =>
-        /\ \A i \in 1..4 : o.F[i] >= 0 /\ o.F[i] <= FM
+        /\ \A i \in 1..4 : o.F[i] >= 0 /\ o.F[i] <= Fx
         /\ Realised(o.F).m4 = VScale(4, o.msat)
         /\ Realised(o.F).T4 = 4 * (o.ts + o.shift)
         /\ (o.shift # 0 => \/ MinSeq(o.F) = 0 /\ o.shift > 0       \* least shift: stops at the bound
-                           \/ MaxSeq(o.F) = FM /\ o.shift < 0)
+                           \/ MaxSeq(o.F) = Fx /\ o.shift < 0)
 
-Vec(FM, geo, t, m) ==
-    LET o == Oracle(FM, geo, t, m)
-        p == Impl(FM, geo, t, m)
-    IN [fn |-> "control_allocation", FM |-> FM, geo |-> geo, t |-> t, m |-> m,
+Vec(Fx, geo, t, m) ==
+    LET o == Oracle(Fx, geo, t, m)
+        p == Impl(Fx, geo, t, m)
+    IN [fn |-> "control_allocation", FM |-> Fx, geo |-> geo, t |-> t, m |-> m,
         kind |-> o.kind, F |-> o.F, msat |-> o.msat, fm |-> o.fm, ts |-> o.ts,
         cell |-> p.cell, impl_num |-> p.num, impl_den |-> p.den]
 
-(* Two-level enumeration: Init picks a "seed" (FM, geo, t, a); Next expands (b, c).  This
+(* Two-level enumeration: Init picks a "seed" (Fx, geo, t, a); Next expands (b, c).  This
    keeps TLC's (sequential) initial-state generation tiny and lets the workers expand the
    seeds in parallel.                                                                   *)
-Init == \E FM \in FMs, geo \in Geos : \E t \in (-TPad)..(FM + TPad), a \in -K..K :
-           tv = [fn |-> "seed", FM |-> FM, geo |-> geo, t |-> t, a |-> a]
+Init == \E Fx \in FMs, geo \in Geos : \E t \in (-TPad)..(Fx + TPad), a \in -K..K :
+           tv = [fn |-> "seed", FM |-> Fx, geo |-> geo, t |-> t, a |-> a]
 Next == /\ tv.fn = "seed"
         /\ \E b \in -K..K, c \in -K..K : tv' = Vec(tv.FM, tv.geo, tv.t, <<tv.a, b, c>>)
 Spec == Init /\ [][Next]_tv
